@@ -752,3 +752,98 @@ v("C20", "uncompressed-handmade-keys", "fire", "codec/formats/uncompressed.py",
 v("C20", "silent-bitvector-positional-shape", "silent", "codec/formats/bitvector.py",
   "codec.encode(depth + 1, val, ranks, output, output_tensor, shape=shape)",
   "codec.encode(depth + 1, val, ranks, output, output_tensor, shape)")
+
+
+# ---------------------------------------------------------------- seeded changes
+# Changes written by independent sub-agents that saw only the property text
+# (/verif/seeded/<id>/: patch.diff, demo.py, meta.json).  Each is a must-fire
+# variant of every check that is expected to report it.
+
+def seed(prop, sid, rule):
+    VARIANTS.setdefault(prop, []).append(
+        {"name": "seeded-" + sid, "kind": "fire", "patch": "seeded/%s/patch.diff" % sid,
+         "file": None, "old": None, "new": None, "expect_rule": rule, "count": 1})
+
+
+seed("C01", "C01-a", "C01.R4")
+seed("C02", "C02-a", "C02.R3")
+seed("C05", "C02-a", "C05.R3")
+seed("C03", "C03-a", "C03.R5")
+seed("C12", "C03-a", "C12.R1")
+seed("C04", "C04-a", "C04.R7")
+seed("C05", "C05-a", "C05.R3")
+seed("C07", "C07-a", "C07.R5")
+seed("C08", "C08-a", "C08.R4")
+seed("C09", "C09-a", "C09.R4")
+seed("C10", "C10-a", "C10.R3")
+seed("C11", "C11-a", "C11.R5")
+seed("C12", "C12-a", "C12.R2")
+seed("C13", "C13-a", "C13.R2")
+seed("C14", "C14-a", "C14.R5")
+seed("C15", "C15-a", "C15.R6")
+seed("C16", "C16-a", "C16.R3")
+seed("C17", "C17-a", "C17.R5")
+seed("C18", "C18-a", "C18.R3")
+seed("C19", "C19-a", "C19.R1")
+seed("C20", "C20-a", "C20.R4")
+
+# ---------------------------------------------------------------- rules added for the seeds
+v("C04", "padding-tuple-one-too-many", "fire", I,
+  "                    extra = (ANY,) * (len_b - len_a)", "                    extra = (ANY,) * (len_b - len_a + 1)", "C04.R7")
+v("C04", "padding-int-uses-difference", "fire", I,
+  "                    extra = (ANY,) * (len_a - 1)", "                    extra = (ANY,) * (len_a - len_b - 1)", "C04.R7")
+v("C04", "padding-width-temp", "silent", I,
+  "                    extra = (ANY,) * (len_b - 1)", "                    n_pad = len_b - 1\n                    extra = (ANY,) * n_pad")
+v("C04", "padding-prepend-commuted", "silent", I,
+  "trans_fn=lambda c: c + extra).__iter__(tick=False)\n\n                a_coord", "trans_fn=lambda c: c + (extra)).__iter__(tick=False)\n\n                a_coord")
+v("C05", "removal-disjuncts-swapped", "silent", I,
+  """                if maybe_remove and (isinstance(a_payload, type(self.a_fiber)) and \\
+                        len(a_payload) == 0) or \\
+                        (not isinstance(a_payload, type(self.a_fiber)) and \\
+                        a_payload == self.a_fiber.getDefault()):""",
+  """                if (not isinstance(a_payload, type(self.a_fiber)) and
+                        a_payload == self.a_fiber.getDefault()) or \\
+                        (len(a_payload) == 0 and isinstance(a_payload, type(self.a_fiber))
+                         and maybe_remove):""")
+v("C05", "removal-leaf-needs-new", "fire", I,
+  "                        a_payload == self.a_fiber.getDefault()):\n                    # Clear the fiber",
+  "                        a_payload == self.a_fiber.getDefault() and new_a_payload):\n                    # Clear the fiber", "C05.R3")
+v("C09", "swizzle-noncumulative-flag", "fire", T,
+  "                same = same and c == last_coord[i]", "                same = c == last_coord[i]", "C09.R4")
+v("C09", "swizzle-prefix-slices", "silent", T,
+  """            same = True
+            for i, c in enumerate(coord[:-1]):
+                same = same and c == last_coord[i]
+
+                # Get a new payload if we are on a new tree
+                if not same:""",
+  """            for i, c in enumerate(coord[:-1]):
+                if coord[:i + 1] != last_coord[:i + 1]:""")
+v("C14", "swizzle-end-not-strict", "fire", T,
+  "range_[1] > fiber.coords[-1]]", "range_[1] >= fiber.coords[-1]]", "C14.R5")
+v("C14", "swizzle-start-from-last", "fire", T,
+  "if range_[0] <= fiber.coords[0] and range_[1] > fiber.coords[0]]", "if range_[0] <= fiber.coords[-1] and range_[1] > fiber.coords[-1]]", "C14.R5")
+v("C14", "swizzle-first-last-temps", "silent", T,
+  "                starts = [range_[0] for range_ in rank_ranges if range_[0] <= fiber.coords[0] and range_[1] > fiber.coords[0]]",
+  "                first_c = fiber.coords[0]\n                starts = [range_[0] for range_ in rank_ranges if range_[0] <= first_c and first_c < range_[1]]")
+v("C15", "iter-row-dropped", "fire", I,
+  """                if is_collecting and tick:
+                    Metrics.addUse(rank, coord, i + j)
+
+                yield CoordPayload(coord, payload)""",
+  """                yield CoordPayload(coord, payload)""", "C15.R6")
+v("C17", "buffet-window-excludes-evict-rank", "fire", "model/traffic.py",
+  "                evict_end = order.index(loop_ranks[evict_on]) + 1", "                evict_end = order.index(loop_ranks[evict_on])", "C17.R5")
+v("C17", "buffet-window-next-misaligned", "fire", "model/traffic.py",
+  "next_stamp = trace[num_ranks * 2 + 2:num_ranks * 2 + 2 + evict_end]", "next_stamp = trace[num_ranks * 2 + 2:num_ranks * 2 + 1 + evict_end]", "C17.R5")
+v("C17", "buffet-window-base-temp", "silent", "model/traffic.py",
+  "            next_stamp = trace[num_ranks * 2 + 2:num_ranks * 2 + 2 + evict_end]\n\n            return curr_stamp == next_stamp and trace[num_ranks * 2 + 2] is not None, sim_info",
+  "            base = 2 * num_ranks + 2\n            next_stamp = trace[base:base + evict_end]\n\n            return trace[base] is not None and curr_stamp == next_stamp, sim_info")
+v("C20", "C-occupancy-only-leaves", "fire", "codec/formats/coord_list.py",
+  "            fiber_occupancy = fiber_occupancy + 1\n\n            # if at leaves, store payloads directly\n            if depth == len(ranks) - 1:\n",
+  "            # if at leaves, store payloads directly\n            if depth == len(ranks) - 1:\n                fiber_occupancy = fiber_occupancy + 1\n", "C20.R4")
+v("C20", "C-occupancy-augassign", "silent", "codec/formats/coord_list.py",
+  "            fiber_occupancy = fiber_occupancy + 1", "            fiber_occupancy += 1")
+v("C03", "getPayloadRef-presence-from-value", "fire", F,
+  "        if self._coordExists(coords[0], index):\n            payload = self.payloads[index]\n        else:\n            payload = self._create_payload(coords[0])",
+  "        if self._coordExists(coords[0], index) and not Payload.isEmpty(self.payloads[index], default=self.getDefault()):\n            payload = self.payloads[index]\n        else:\n            payload = self._create_payload(coords[0])", "C03.R5")
